@@ -2,7 +2,9 @@ package engines
 
 import (
 	"bytes"
+	"filippo.io/age/armor"
 	"fmt"
+	"io"
 
 	"filippo.io/age"
 
@@ -21,7 +23,7 @@ type SchedPair struct {
 }
 
 type C12Plan struct {
-	Mode   string       `json:"mode"` // "enc", "dec", "dearmor"
+	Mode   string       `json:"mode"` // "enc", "dec", "dearmor", "enarmor" (the armor writer alone)
 	File   lib.FileSpec `json:"file"`
 	Segs   []int        `json:"segs,omitempty"`
 	Damage *Damage      `json:"damage,omitempty"` // dec: payload damage (C02 kinds), or whole-file kinds "ftrunc"/"fflip"
@@ -51,7 +53,7 @@ func (C12) Meta() core.Meta {
 		Real:        []string{"filippo.io/age Encrypt/Decrypt", "internal/stream", "internal/format", "armor"},
 		Stub:        []string{"destination recorder", "ciphertext source with delivery schedule", "caller's read-buffer schedule", "crypto/rand.Reader (tape)"},
 		FaultKinds:  []string{"fault.damaged_image", "fault.armor_corruption"},
-		Probes:      []string{"probe.empty_write", "probe.fed_by_io_copy", "probe.write_gt_chunk", "probe.write_ends_on_boundary", "probe.exact_multiple_through_armor", "probe.bufio_lt_4096", "probe.bufio_ge_4096", "probe.data_with_eof", "probe.one_byte_delivery", "probe.zero_len_read", "probe.read_gt_chunk", "probe.outcome_error", "probe.outcome_clean", "probe.multi_chunk"},
+		Probes:      []string{"probe.empty_write", "probe.fed_by_io_copy", "probe.write_gt_chunk", "probe.write_ends_on_boundary", "probe.exact_multiple_through_armor", "probe.bufio_lt_4096", "probe.bufio_ge_4096", "probe.data_with_eof", "probe.one_byte_delivery", "probe.zero_len_read", "probe.read_gt_chunk", "probe.outcome_error", "probe.outcome_clean", "probe.multi_chunk", "probe.armor_writer_alone"},
 	}
 }
 
@@ -66,6 +68,26 @@ func (C12) Generate(r *core.RNG, tier string, idx uint64) interface{} {
 	case 0, 1, 2, 3:
 		p.Mode = "enc"
 		p.Segs = lib.GenSegs(r, p.File.PLen)
+		if r.Chance(1, 8) {
+			// the armor writer on its own: any first write, also shorter than one base64 group
+			p.Mode = "enarmor"
+			p.File.Recips = nil
+			p.File.PLen = r.Pick(0, 1, 2, 3, 4, 47, 48, 49, 100, r.Intn(3000))
+			p.Segs = lib.GenSegs(r, p.File.PLen)
+			if r.Bool() && p.File.PLen > 0 {
+				first := r.Pick(0, 1, 2, 3)
+				if first > p.File.PLen {
+					first = p.File.PLen
+				}
+				p.Segs = append([]int{first}, lib.GenSegs(r, p.File.PLen-first)...)
+				if r.Chance(1, 3) {
+					p.Segs = nil // one byte at a time
+					for i := 0; i < p.File.PLen && i < 200; i++ {
+						p.Segs = append(p.Segs, 1)
+					}
+				}
+			}
+		}
 		return p
 	case 4:
 		p.Mode = "dearmor"
@@ -206,6 +228,8 @@ func (e C12) Execute(plan interface{}, c *core.Ctx) *core.Verdict {
 		return e.execDec(p, c)
 	case "dearmor":
 		return e.execDearmor(p, c)
+	case "enarmor":
+		return e.execEnarmor(p, c)
 	}
 	return core.Fail("harness", "bad mode")
 }
@@ -442,6 +466,60 @@ func probeSched(c *core.Ctx, sp SchedPair) {
 			c.Stats.Inc("probe.read_gt_chunk")
 		}
 	}
+}
+
+// execEnarmor: the armored text must be the same however the caller splits its writes (compared with one
+// single write and with the reference armor), and every Write reports the full count.
+func (e C12) execEnarmor(p *C12Plan, c *core.Ctx) *core.Verdict {
+	data := p.File.Plain()
+	one := seam.NewDisk(nil, nil)
+	w := armor.NewWriter(one)
+	if len(data) > 0 {
+		if n, err := w.Write(data); n != len(data) || err != nil {
+			return core.Fail("C12.enc.count", "single Write of %d bytes to the armor writer reported (%d, %v)", len(data), n, err)
+		}
+	}
+	if err := w.Close(); err != nil {
+		return core.Fail("C12.enc.error", "armor Close failed without a fault: %v", err)
+	}
+	d := seam.NewDisk(nil, c.Log)
+	w = armor.NewWriter(d)
+	off := 0
+	for i, sg := range p.Segs {
+		if sg < 0 {
+			n, err := io.Copy(w, &lib.PlainReader{Data: data[off:], Max: -sg})
+			if err != nil || int(n) != len(data)-off {
+				return core.Fail("C12.enc.count", "io.Copy of %d bytes into the armor writer reported (%d, %v)", len(data)-off, n, err)
+			}
+			off = len(data)
+			break
+		}
+		if off+sg > len(data) {
+			sg = len(data) - off
+		}
+		n, err := w.Write(data[off : off+sg])
+		if n != sg || err != nil {
+			return core.Fail("C12.enc.count", "Write of %d bytes (segment %d of %v) to the armor writer reported (%d, %v)", sg, i, p.Segs, n, err)
+		}
+		off += sg
+	}
+	if off < len(data) {
+		if n, err := w.Write(data[off:]); n != len(data)-off || err != nil {
+			return core.Fail("C12.enc.count", "final Write reported (%d, %v)", n, err)
+		}
+	}
+	if err := w.Close(); err != nil {
+		return core.Fail("C12.enc.error", "armor Close failed without a fault: %v", err)
+	}
+	c.Stats.Eval(fmt.Sprintf("enarmor|%d|%v", len(data), p.Segs), len(p.Segs) > 1)
+	c.Stats.Inc("probe.armor_writer_alone")
+	if !bytes.Equal(d.Data, one.Data) {
+		return core.Fail("C12.enc.bytes", "armoring %d bytes with writes %v gives other text than one single Write: first difference at byte %d (%d vs %d bytes)", len(data), p.Segs, firstDiff(d.Data, one.Data), len(d.Data), len(one.Data))
+	}
+	if want := ref.Armor(data); string(d.Data) != want {
+		return core.Fail("C12.enc.bytes", "armoring %d bytes gives text the reference armor does not produce (first difference at byte %d)", len(data), firstDiff(d.Data, []byte(want)))
+	}
+	return nil
 }
 
 func (e C12) execDearmor(p *C12Plan, c *core.Ctx) *core.Verdict {
